@@ -53,7 +53,7 @@ let run (_prefix : string) (cfg : config) (parts : string list) (_src : string)
           let ok = erase_ok vp cfg.c_prefix_stmts plus m i o in
           if ok then [ ("erase_ok", JB true) ]
           else begin
-            let a = lower plus (erase vp cfg.c_prefix_stmts m o) and b = lower plus i in
+            let a = strip_parens (lower plus (erase vp cfg.c_prefix_stmts m o)) and b = strip_parens (lower plus i) in
             let path = match first_diff_nospan a b with Some p -> List.map int_of_nat p | None -> [] in
             let rec at n p = match p, n with
               | [], _ -> n
